@@ -10,6 +10,7 @@ import (
 
 	"pikemc/env"
 	"pikemc/vsched"
+	"pikemc/vsync"
 	"pikemc/vtime"
 )
 
@@ -31,6 +32,7 @@ func getEnv(cfg *config.PikeConfig, key string) *env.Env {
 
 // freshCaches drops all dispatchers and re-creates them from cfg via pike's Reset.
 func freshCaches(cfg *config.PikeConfig) {
+	vsync.NewGeneration()
 	cache.ResetDispatchers(nil)
 	cache.ResetDispatchers(cfg.Caches)
 }
@@ -118,22 +120,30 @@ func (a *analysis) labelTruth() *vsched.Violation {
 	return nil
 }
 
-// selfCheck verifies that every 200 body is a self-identifying body for the request's own key.
+// selfCheck verifies that every 200 response identifies itself (X-Self header and, for
+// non-HEAD, the body) as produced for the request's own method, host and URI.
 func (a *analysis) selfCheck() *vsched.Violation {
 	for _, rid := range a.Order {
 		r := a.Reqs[rid].Res
 		if r.Status != 200 || r.Panic != "" {
 			continue
 		}
-		_, m, h, u, _, ok := env.ParseSelf(r.Body)
+		xs := strings.SplitN(r.Header.Get("X-Self"), "|", 4)
+		if len(xs) != 4 {
+			return &vsched.Violation{Sig: "malformed-response", Msg: fmt.Sprintf("request %s got X-Self %q", rid, r.Header.Get("X-Self"))}
+		}
+		if xs[1] != r.Method || xs[2] != r.Host || xs[3] != r.URI {
+			return &vsched.Violation{Sig: "wrong-key-response", Msg: fmt.Sprintf("request %s %s %s%s got a response produced for %s %s%s", rid, r.Method, r.Host, r.URI, xs[1], xs[2], xs[3])}
+		}
 		if r.Method == "HEAD" {
 			continue
 		}
+		ser, m, h, u, _, ok := env.ParseSelf(r.Body)
 		if !ok {
 			return &vsched.Violation{Sig: "malformed-body", Msg: fmt.Sprintf("request %s got body %q", rid, trunc(r.Body))}
 		}
-		if m != r.Method || h != r.Host || u != r.URI {
-			return &vsched.Violation{Sig: "wrong-key-body", Msg: fmt.Sprintf("request %s %s %s%s got a body produced for %s %s%s", rid, r.Method, r.Host, r.URI, m, h, u)}
+		if m != r.Method || h != r.Host || u != r.URI || ser != xs[0] {
+			return &vsched.Violation{Sig: "wrong-key-body", Msg: fmt.Sprintf("request %s %s %s%s got a body produced for %s %s%s (serial %s, headers of serial %s)", rid, r.Method, r.Host, r.URI, m, h, u, ser, xs[0])}
 		}
 	}
 	return nil
